@@ -32,7 +32,11 @@ Inductive case :=
 | COpt32 (p : list byte) (g : option (list byte))
 | CTry32 (o : option (list byte)) (r : res (list byte))
 | COpt64 (p : N) (g : option N)
-| CTry64 (o : option N) (r : res N).
+| CTry64 (o : option N) (r : res N)
+(* a carrier whose none value is not its Default value (none is a parameter of the case) *)
+| COptG (none p : N) (g : option N)
+| CTryG (none : N) (o : option N) (r : res N)
+| CDefG (none d : N).
 
 Definition check (c : case) : bool :=
   match c with
@@ -51,4 +55,7 @@ Definition check (c : case) : bool :=
   | CTry32 o r => agree list_byte_eqb (try32 o) r
   | COpt64 p g => opt_eqb N.eqb (get64 p) g
   | CTry64 o r => agree N.eqb (try64 o) r
+  | COptG none p g => opt_eqb N.eqb (get N N.eqb none p) g
+  | CTryG none o r => agree N.eqb (try_from_option N N.eqb none o) r
+  | CDefG none d => default N none =? d
   end.
